@@ -2,8 +2,11 @@
 from lib import engine, native
 from lib.core import tier
 
+# C01's "each emitted cycle is SIMPLE" rests on the minimality clauses of the search contracts K9/K10 (a minimum odd closed
+# walk is a simple cycle; a non-minimum one need not be), so their violations are carrier-contract violations of C01 too.
 C01_KINDS = {"count", "foreign-edge", "not-simple-cycle", "dependent", "exception", "crash",
-             "hidden-edge-used", "search-parity", "search-not-a-walk", "phase-not-simple", "phase-parity", "phase-spurious"}
+             "hidden-edge-used", "search-parity", "search-not-a-walk", "phase-not-simple", "phase-parity", "phase-spurious",
+             "search-missed", "search-not-minimum", "search-limit", "phase-missed", "phase-not-minimum"}
 C02_KINDS = {"returned-weight", "not-minimum", "weight-vector",
              "search-weight", "search-not-minimum", "search-limit", "search-missed", "phase-missed", "phase-weight",
              "phase-not-minimum"}
